@@ -195,6 +195,20 @@ func genTemplates(t *rapid.T, want int, vocab []string, maxSeg int, rootOK bool)
 		shapes = append(shapes, s)
 		out = append(out, Tmpl{Path: rename(s), Methods: genMethods(t)})
 	}
+	// a parameter-free template whose last segment carries a literal ':' ("/files:upload", the custom-verb style): the
+	// trie router reserves that byte in parameterised patterns only, a purely literal template is matched as it stands
+	if rapid.IntRange(0, 4).Draw(t, "colon-literal") == 0 {
+		var segs []string
+		for i, n := 0, rapid.IntRange(0, 1).Draw(t, "colon-prefix-segments"); i < n; i++ {
+			segs = append(segs, rapid.SampledFrom(vocab).Draw(t, "colon-prefix"))
+		}
+		segs = append(segs, rapid.SampledFrom(vocab).Draw(t, "colon-stem")+":"+rapid.SampledFrom([]string{"b", "upload", "x", "a"}).Draw(t, "colon-verb"))
+		key := "/" + strings.Join(segs, "/")
+		if !seen[key] {
+			seen[key] = true
+			out = append(out, Tmpl{Path: key, Methods: genMethods(t)})
+		}
+	}
 	if len(out) == 0 {
 		out = append(out, Tmpl{Path: "/a", Methods: []string{"get"}})
 	}
@@ -283,6 +297,13 @@ func mutate(t *rapid.T, segs []string, vocab []string) []string {
 		return append(segs, rapid.SampledFrom([]string{"", ".", "..", "a"}).Draw(t, "rootmut"))
 	}
 	i := rapid.IntRange(0, len(segs)-1).Draw(t, "mutat")
+	for j, sg := range segs {
+		// a segment with a literal ':' is the interesting one to damage: keep the stem, change what follows
+		if k := strings.IndexByte(sg, ':'); k > 0 && !strings.Contains(sg, "%") && rapid.Bool().Draw(t, "colon-tail") {
+			segs[j] = sg[:k] + rapid.SampledFrom([]string{"", ":", ":c", "b", "system", ":" + sg[k+1:] + "x", "-2"}).Draw(t, "tail")
+			return segs
+		}
+	}
 	switch rapid.IntRange(0, 9).Draw(t, "mut") {
 	case 0: // drop a segment
 		return append(segs[:i:i], segs[i+1:]...)
@@ -619,6 +640,11 @@ func Classify(c Case) (bool, []string) {
 	}
 	if len(c.Tmpls) >= 50 {
 		labels["table ≥50 templates"] = true
+	}
+	for _, tm := range c.Tmpls {
+		if strings.Contains(tm.Path, ":") {
+			labels["parameter-free template with a literal ':'"] = true
+		}
 	}
 	if len(c.Reqs) == 0 {
 		labels["no deliverable request"] = true
